@@ -12,17 +12,31 @@
 (*           "augassign" x += <e>       "annassign"  x: int = <e>            *)
 (*           "del"     del x            "assert" / "raise" / "return" /      *)
 (*           "yield"   control flow and generator statements                *)
+(*           "for_body" for _ in xs: <e>      "for_else"  for .. : pass else: <e> *)
+(*           "for_iter" for _ in <e>: pass    "for_bind"  for k in xs: <e>    *)
+(*           "if_test"  if <e>: pass          "if_body" / "if_else"           *)
 (*   ctx     where the interesting sub-expression <c> sits inside <e>:       *)
 (*           "top", "binop", "boolop", "compare", "call_arg", "comp_elt",    *)
 (*           "comp_cond", "comp_iter", "dictcomp_key", "dictcomp_val",       *)
 (*           "ifexp_test", "ifexp_branch", "fstring", "lambda_body",         *)
 (*           "subscript", "attribute", "tuple", "dict_value", "starred",     *)
-(*           "walrus"                                                        *)
+(*           "walrus", "slice_lower", "slice_step", "index", "call_kwarg",    *)
+(*           "call_star", "format_spec", "unary", "not", "chained_compare",   *)
+(*           "set_elt", "dict_key", "genexp_elt", "comp_iter2",               *)
+(*           "lambda_default", "subscript_value", "nested_ifexp"              *)
 (*   callee  what <c> is: "const" (a literal), "name" (a variable read),     *)
 (*           "builtin" (len(xs)), "const_method" ("a".upper()),              *)
 (*           "user_pure" / "user_impure" / "user_raises" (a call of a        *)
 (*           function defined in the module), "unknown" (a call of an        *)
-(*           undefined name), "method" (xs.append(1)), "walrus" ((w := 1))   *)
+(*           undefined name), "method" (xs.append(1)), "walrus" ((w := 1)),  *)
+(*           "user_cond_raise" (if bad: raise .. else: return v),            *)
+(*           "user_branch_effect" (if c: print(..); return 1 else: return 2), *)
+(*           "user_calls_impure" (return impure(v)), "user_global_write",     *)
+(*           "ctor_plain" / "ctor_impure" (a class of the module is           *)
+(*           instantiated), "shadowed_builtin" (the module defines its own    *)
+(*           sorted()), "map_impure" (list(map(impure, xs))),                 *)
+(*           "sorted_key_impure" (sorted(xs, key=impure)), "next_user_gen"    *)
+(*           (next(g) for a generator of the module), "user_lambda"           *)
 (***************************************************************************)
 EXTENDS Integers, FiniteSets, TLC, Json
 
@@ -34,8 +48,12 @@ vars == <<c>>
 \* <c> is evaluated when the statement runs, except under a lambda
 Evaluated(ctx) == ctx # "lambda_body"
 
-CallsForbidden(callee) == callee \in {"user_pure", "user_impure", "user_raises", "unknown", "method"}
-Binds(form, ctx, callee) == form \in {"assign", "attrset", "itemset", "augassign", "annassign", "del"}
+\* the sub-expression calls something user-defined or unknown, directly or through a builtin that calls back
+CallsForbidden(callee) == callee \in {"user_pure", "user_impure", "user_raises", "unknown", "method",
+                                      "user_cond_raise", "user_branch_effect", "user_calls_impure", "user_global_write",
+                                      "ctor_plain", "ctor_impure", "shadowed_builtin", "map_impure", "sorted_key_impure",
+                                      "next_user_gen", "user_lambda"}
+Binds(form, ctx, callee) == form \in {"assign", "attrset", "itemset", "augassign", "annassign", "del", "for_bind"}
                             \/ (callee = "walrus" /\ Evaluated(ctx))
 Control(form) == form \in {"assert", "raise", "return", "yield"}
 
@@ -51,6 +69,10 @@ Admissible(form, ctx, callee) ==
     /\ (form = "del" => callee = "name")
     /\ (callee = "walrus" => ctx \in {"top", "call_arg", "comp_cond", "ifexp_test", "tuple"})
     /\ (ctx = "starred" => callee \in {"name", "builtin", "user_pure", "user_impure", "unknown"})
+    /\ (ctx = "call_star" => callee \in {"name", "builtin", "user_pure", "user_impure", "unknown", "map_impure"})
+    /\ (form \in {"for_body", "for_else", "for_iter", "for_bind", "if_test", "if_body", "if_else"}
+            => ctx \in {"top", "call_arg", "comp_elt", "ifexp_branch", "fstring"} /\ callee # "walrus")
+    /\ (form = "for_iter" => callee \notin {"const"})
 
 Init == c \in {[form |-> f, ctx |-> x, callee |-> k, pointless |-> IdealPointless(f, x, k)] :
                   f \in Forms, x \in Ctxs, k \in Callees}
